@@ -39,7 +39,11 @@ META = {
 
 WRAP = ("-Wl,--wrap=stoAlloc", "-Wl,--wrap=stoFree", "-Wl,--wrap=stoResize")
 TLC_EXTRA = ("-noGenerateSpecTE",)
-EV_PER_CHUNK = 45000
+EV_PER_CHUNK = 60000
+# The TLC runs of this check are many and short: the C2 compiler threads cost three times what they save
+# (measured: 40k-event trace 8.7 s -> 2.8 s CPU).  Long single traces of the thorough tier keep the default.
+JVM_SHORT = {"JAVA_TOOL_OPTIONS": "-XX:TieredStopAtLevel=1 -XX:ParallelGCThreads=2"}
+JVM_LONG = {"JAVA_TOOL_OPTIONS": "-XX:ParallelGCThreads=2"}
 
 
 class Ctx(object):
@@ -83,7 +87,9 @@ def validate(ctx, part, trace, label, lines=None, natoms=4):
         mod, cfg = "TraceDnf", "TraceDnf%d" % natoms
     else:
         mod, cfg = "TraceContainers", "TraceContainers"
-    res = vlib.tlc(mod, cfg, workers=1, env={"TRACE": trace}, timeout=1500, xmx="3g", xss="256m", extra=TLC_EXTRA)
+    env = dict(JVM_LONG if n > 150000 else JVM_SHORT)
+    env["TRACE"] = trace
+    res = vlib.tlc(mod, cfg, workers=1, env=env, timeout=1700, xmx="3g", xss="256m", extra=TLC_EXTRA)
     with ctx.lock:
         ctx.chk.add_tlc("%s:%s" % (mod, label), res)
         if res.violated:
@@ -132,7 +138,7 @@ def replay_script(ctx, pool, drv, part, label, lines, ev_per_case, natoms=4):
 
 
 def gen_containers(ctx, pool, drv, cfg, label, param, ev_per_case):
-    res = vlib.tlc("Containers", cfg, workers=2, timeout=1500, xmx="4g", extra=TLC_EXTRA)
+    res = vlib.tlc("Containers", cfg, workers=2, timeout=1500, xmx="4g", extra=TLC_EXTRA, env=JVM_SHORT)
     with ctx.lock:
         ctx.chk.add_tlc("Containers:" + cfg, res)
     if res.violated:
@@ -148,7 +154,7 @@ def gen_containers(ctx, pool, drv, cfg, label, param, ev_per_case):
 
 
 def gen_dnf(ctx, pool, drv, cfg, label, ev_per_case):
-    res = vlib.tlc("Dnf", cfg, workers=4, timeout=1500, xmx="4g", extra=TLC_EXTRA)
+    res = vlib.tlc("Dnf", cfg, workers=2, timeout=1500, xmx="4g", extra=TLC_EXTRA, env=JVM_SHORT)
     with ctx.lock:
         ctx.chk.add_tlc("Dnf:" + cfg, res)
     if res.violated:
@@ -164,7 +170,7 @@ def gen_dnf(ctx, pool, drv, cfg, label, ev_per_case):
 
 
 def model_only(ctx, module, cfg):
-    res = vlib.tlc(module, cfg, workers=4, timeout=1500, xmx="4g", extra=TLC_EXTRA)
+    res = vlib.tlc(module, cfg, workers=4, timeout=1500, xmx="4g", extra=TLC_EXTRA, env=JVM_LONG)
     with ctx.lock:
         ctx.chk.add_tlc("%s:%s" % (module, cfg), res)
         if res.violated:
@@ -192,7 +198,38 @@ def bad_key(part, rec):
     return k
 
 
+def single_case(line):
+    """C20_CASE='<script line>' bin/verif check C20: run one case alone, show the recorded events and TLC's verdict."""
+    b = vlib.vbuild()
+    drv = vlib.harness_build("containers_drv", [os.path.join(vlib.VERIF, "harness", "containers_drv.c")], b, extra=WRAP)
+    wd = vlib.scratch("c20r")
+    with open(os.path.join(wd, "s"), "w") as fh:
+        fh.write(line + "\n")
+    subprocess.run([drv, "script", os.path.join(wd, "s"), os.path.join(wd, "t.ndjson")], stderr=subprocess.DEVNULL)
+    print(open(os.path.join(wd, "t.ndjson")).read())
+    dnf = line[0] in "FQL"
+    res = vlib.tlc("TraceDnf" if dnf else "TraceContainers", "TraceDnf10" if dnf else "TraceContainers", workers=1,
+                   env={"TRACE": os.path.join(wd, "t.ndjson")}, timeout=300, extra=TLC_EXTRA)
+    if res.error:
+        raise vlib.MachineryError(res.error)
+    bad = [p for p in res.printed if p.startswith("BAD ")]
+    print("\n".join(bad) or "accepted by the specification")
+    return res, bad
+
+
 def run(chk, tier):
+    if os.environ.get("C20_CASE"):
+        res, bad = single_case(os.environ["C20_CASE"])
+        chk.add_tlc("single-case", res)
+        chk.traces = 1
+        chk.case(os.environ["C20_CASE"])
+        chk.case("(single case run)")
+        chk.sample(os.environ["C20_CASE"])
+        chk.rule = "one case given in C20_CASE"
+        for p in bad:
+            rec = json.loads(p[4:])
+            chk.violation("single case: %s %s" % (rec.get("ev"), rec.get("why")), rec, key=bad_key("dnf" if os.environ["C20_CASE"][0] in "FQL" else "containers", rec))
+        return
     thorough = tier == "thorough"
     b = vlib.vbuild()
     drv = vlib.harness_build("containers_drv", [os.path.join(vlib.VERIF, "harness", "containers_drv.c")], b, extra=WRAP)
@@ -221,7 +258,7 @@ def run(chk, tier):
     gens.append(gpool.submit(gen_containers, ctx, pool, drv, "ContainersGenP" + suf, "genP", 1, 11))
     gens.append(gpool.submit(gen_containers, ctx, pool, drv, "ContainersGenV", "genV", (3, 2), 4))
     gens.append(gpool.submit(gen_containers, ctx, pool, drv, "ContainersGenVseq" + suf, "genVseq", (3, 2), 5))
-    first.append(gpool.submit(model_only, ctx, "Dnf", "DnfModel"))
+    first.append(gpool.submit(model_only, ctx, "Dnf", "DnfModel" + suf))
 
     # (C) random formulas: inputs from the seed, judged by TLC
     nf4, nq4, nf10, nq10 = (60000, 20000, 6000, 3000) if thorough else (2500, 1200, 300, 200)
@@ -308,18 +345,7 @@ def replay(d):
     if not line:
         print("no single case recorded for this violation (random history: re-run the check with the same VERIF_SEED)")
         return 0
-    b = vlib.vbuild()
-    drv = vlib.harness_build("containers_drv", [os.path.join(vlib.VERIF, "harness", "containers_drv.c")], b, extra=WRAP)
-    wd = vlib.scratch("c20r")
-    with open(os.path.join(wd, "s"), "w") as fh:
-        fh.write(("L 10\n" if line[0] in "FQ" else "") + line + "\n")
-    subprocess.run([drv, "script", os.path.join(wd, "s"), os.path.join(wd, "t.ndjson")], stderr=subprocess.DEVNULL)
-    print(open(os.path.join(wd, "t.ndjson")).read())
-    dnf = line[0] in "FQ"
-    res = vlib.tlc("TraceDnf" if dnf else "TraceContainers", "TraceDnf10" if dnf else "TraceContainers", workers=1,
-                   env={"TRACE": os.path.join(wd, "t.ndjson")}, timeout=300, extra=TLC_EXTRA)
-    bad = [p for p in res.printed if p.startswith("BAD ")]
-    print("\n".join(bad) or "accepted")
+    res, bad = single_case(line)
     return 1 if bad or res.violated else 0
 
 
